@@ -11,7 +11,9 @@ import (
 	"encoding/json"
 	"fmt"
 	"os"
+	"reflect"
 	"strings"
+	"unsafe"
 )
 
 type NondetValue struct {
@@ -175,6 +177,18 @@ func UFBool(name string, args ...string) bool {
 func UFU64(name string, args ...uint64) uint64 { return next("uf:"+name, "u64").U }
 
 func Concrete(x int) int { return x }
+
+// SetUnexported stores val into the (possibly unexported, possibly promoted) field `field` of the
+// struct ptr points to. It exists to put a dependency's zero-value object into a state its own
+// API only reaches through goroutines (a raft.Raft that reports "leader"). The engine performs
+// the same store on its own representation of the struct.
+func SetUnexported(ptr any, field string, val any) {
+	f := reflect.ValueOf(ptr).Elem().FieldByName(field)
+	if !f.IsValid() {
+		panic("verifrt.SetUnexported: no field " + field)
+	}
+	reflect.NewAt(f.Type(), unsafe.Pointer(f.UnsafeAddr())).Elem().Set(reflect.ValueOf(val).Convert(f.Type()))
+}
 
 // DeepCopy returns a structural copy of v (engine only: it backs the "ideal
 // codec" stubs, which are never active natively).
